@@ -41,6 +41,8 @@ func runStorage(id string, toks []string) (res string) {
 		return "setup-error"
 	}
 	var out []string
+	var kept [][]byte
+	var keptHex []string
 	for _, t := range toks[1:] {
 		p := strings.Split(t, ":")
 		switch p[0] {
@@ -54,6 +56,17 @@ func runStorage(id string, toks []string) (res string) {
 				out = append(out, "g=nf")
 			} else {
 				out = append(out, "g="+hx(b))
+			}
+			// what an earlier Get returned stays what it was (callers keep the slices: Config.load does)
+			for i, k := range kept {
+				if hx(k) != keptHex[i] {
+					out[len(out)-1] += "!earlier-result-changed"
+					kept, keptHex = nil, nil
+					break
+				}
+			}
+			if err == nil {
+				kept, keptHex = append(kept, b), append(keptHex, hx(b))
 			}
 		case "D":
 			st.Delete(string(unhex(p[1])))
